@@ -15,6 +15,9 @@ import sys
 from fractions import Fraction
 
 FMT = {"f32": (24, 127, 8), "f64": (53, 1023, 11)}
+# stand-ins for magnitudes beyond 10^400 / below 10^-400 (round to infinity / zero in f32 and f64)
+HUGE = Fraction(10) ** 400
+TINY = Fraction(1, 10 ** 400)
 
 
 def parse_decimal(text):
@@ -25,7 +28,19 @@ def parse_decimal(text):
             mant, e = t.split(sep, 1)
             exp = int(e)
             break
-    return Fraction(mant) * (Fraction(10) ** exp)
+    m = Fraction(mant)
+    if m != 0:
+        # decimal order of magnitude of the mantissa, +-1; beyond +-400 every binary format
+        # here overflows / underflows and the exact power of ten is not needed (and with an
+        # exponent like 1E2147483647 could not be computed)
+        order = len(str(abs(m.numerator))) - len(str(m.denominator))
+        if order + exp > 400:
+            return HUGE if m > 0 else -HUGE
+        if order + exp < -400:
+            return TINY if m > 0 else -TINY
+    else:
+        return Fraction(0)
+    return m * (Fraction(10) ** exp)
 
 
 def nearest_bits(q, kind):
